@@ -39,6 +39,7 @@ import GdVerif.Run.FfowFaults
 import GdVerif.Run.MindustryFaults
 import GdVerif.Run.Http
 import GdVerif.Run.GenHttp
+import GdVerif.Run.Socket
 /-
   gdmodel: the model behind a line protocol.
     gdmodel run        : reads `<id> <entry> <args…>` lines on stdin, prints `<id> <outcome>`
@@ -81,7 +82,8 @@ def allEntries : List (String × (List String → String)) := List.flatten [
   gs1FaultEntries,
   gs2Entries,
   gs2FaultEntries,
-  httpEntries
+  httpEntries,
+  SockDrv.sockEntries
   ]
 
 def runLine (line : String) : String :=
